@@ -53,6 +53,9 @@ structure Facts where
   buildProtocol : Bool
   -- unknownfields.go and its three call sites in Decode are, statement by statement, UnknownIdx.lean
   unknownIndexProtocol : Bool
+  -- C08: writes to / addresses taken of fields reached from a shared descriptor on the hot paths
+  descriptorWriteSites : Nat
+  descriptorWriteSiteList : List String
   -- C18
   hotPathHeapSites : Nat
   hotPathHeapSiteList : List String
@@ -79,6 +82,11 @@ def lockDiscipline (F : Facts) : Bool :=
   F.createLocksRechecksBuildsPublishes && F.getIsReadOnly && F.setCopiesThenStores &&
   F.cachesConfinedToLockedPath && F.publishOnlyInCreate && F.buildPathCallersOK &&
   F.scratchPooledAndCleared
+
+/-- C08: after publication the descriptors (type nodes, struct and field descriptors) are read-only:
+    no encode / size / decode function assigns to, increments, or takes the address of a field reached
+    from one (the two routines that choose a node's encode function run inside `newTType` only) -/
+def descriptorsReadOnly (F : Facts) : Bool := F.descriptorWriteSites == 0
 
 /-- C04: `Append(buf[:0:len(buf)], v)` and `len(ret) > len(buf)` is the error test -/
 def bufferContract (F : Facts) : Bool := F.encodeCapsAtLen && F.encodeChecksLen
